@@ -7,6 +7,7 @@ import (
 	"fmt"
 	"os"
 	"path/filepath"
+	"strings"
 	"sync/atomic"
 
 	anystore "github.com/anyproto/any-store"
@@ -424,7 +425,57 @@ func (h *hist) probeAll() {
 		} else {
 			h.r.Count("tree.nonmember-read")
 		}
+		h.noKeyProbe(a, at, rp, row)
 	}
+}
+
+// noKeyProbe: "building an encrypted change without a key fails instead of emitting plaintext", asked of the
+// trees whose ACL view knows the current generation id but holds no read key for it (removed, dropped before a
+// rotation, never admitted accounts). The change is signed with the key of a legitimate writer (the owner), so
+// the permission check passes and only the missing key can stop it. A fresh tree over such a view has no
+// current tree key; the long-lived tree is asked only when its account never held any key (a removed member's
+// long-lived tree still carries the derived key of its last generation, see notes O-3).
+func (h *hist) noKeyProbe(a int, fresh objecttree.ObjectTree, rp *replica, row string) {
+	cur := len(h.gens) - 1
+	if row[cur] != '0' {
+		return
+	}
+	ctx := context.Background()
+	t := h.tree
+	t.n++
+	plain := append(append([]byte{}, marker...), []byte(fmt.Sprintf("nokey-%d-%d", h.id, t.n))...)
+	sc := objecttree.SignableChangeContent{Data: plain, Key: h.accs[h.owner()].SignKey, ShouldBeEncrypted: true, DataType: "d", Timestamp: int64(1700000000 + t.n)}
+	judge := func(what string, raw []byte, err error) {
+		h.r.Count("tree.nokey-probe")
+		if err != nil {
+			return
+		}
+		desc := fmt.Sprintf("after record %d the %s of account %d (key map %s: no read key for the current generation %d) builds a change requested as encrypted instead of refusing it", len(h.raw)-1, what, a, row, cur)
+		if bytes.Contains(raw, marker) {
+			desc += "; its raw bytes contain the PLAINTEXT"
+		}
+		h.violate("keys.tree-build-without-key", desc)
+	}
+	raw, err := fresh.PrepareChange(sc)
+	var rb []byte
+	if raw != nil {
+		rb = raw.RawChange
+	}
+	judge("fresh tree (PrepareChange)", rb, err)
+	if strings.Trim(row, "0") != "" {
+		return
+	}
+	res, err := rp.tree.AddContent(ctx, sc)
+	rp.touches++
+	h.cacheTouch(a) // the model's cache must see this touch now, not after later records
+	rb = nil
+	if err == nil && len(res.Added) > 0 {
+		rb = res.Added[0].RawChange
+		if st, gerr := rp.tree.Storage().Get(ctx, res.Added[0].Id); gerr == nil {
+			rb = append(append([]byte{}, rb...), st.RawChange...) // returned and stored bytes
+		}
+	}
+	judge("long-lived tree (AddContent, returned and stored bytes)", rb, err)
 }
 
 // buildWithoutKey: the change builder must refuse to build an encrypted change without a key, and must
